@@ -331,6 +331,11 @@ def execute(scn: dict) -> dict:
         else:
             if mstar is not None:
                 acceptable.append(exp_of(mstar))
+                if tc is not None and reqs and mstar["eseq"] < reqs[0][0] and tc < deadline and tc >= t_call:
+                    # the "response" was already queued before the request was even written (no real server can do that);
+                    # the token then fired before the first receive: the sentence does not order these two - accept both
+                    acceptable.append(("cancelled",))
+                    probe("cancel_vs_prequeued_response")
             else:
                 acceptable.append(("timeout",))
                 if edge is not None:
@@ -395,7 +400,10 @@ def execute(scn: dict) -> dict:
         for d in delivered:
             if d["ev"]["kind"] == "progress" and not d["ev"].get("flood"):
                 probe("progress_matching_delivered" if d["ev"]["token"] == "right" else "progress_foreign_delivered")
-        must = [d for d in matching if d["eseq"] < cutoff_eseq and d["t"] < t_done and not pre_cancel]
+        w_eseq = reqs[0][0] if reqs else 0
+        # a notification carrying the token *before the request announcing that token was written* cannot come from a real
+        # server: it may or may not be seen (e.g. the token fires before the first receive) - only "may"
+        must = [d for d in matching if d["eseq"] < cutoff_eseq and d["t"] < t_done and not pre_cancel and d["eseq"] > w_eseq]
         may = [d for d in matching if d not in must and d["eseq"] < st["done_eseq"] and d["t"] <= t_done]
         calls = st["cb_calls"]
 
@@ -404,19 +412,22 @@ def execute(scn: dict) -> dict:
             return ((args[0] == p.get("progress", 0) or (("progress" not in p) and args[0] in (0, None)))
                     and args[1] == p.get("total") and args[2] == p.get("message"))
 
-        seq = must + may
-        # calls must be a prefix-respecting subsequence: call j corresponds to seq[j]
+        seq = sorted(must + may, key=lambda d: d["eseq"])
         bad = None
-        if len(calls) > len(seq):
-            bad = ("extra-invocation", f"{len(calls)} callback invocations for {len(seq)} matching progress notifications delivered before completion")
-        else:
-            for j, cinv in enumerate(calls):
-                if not args_ok(seq[j], cinv["args"]):
-                    bad = ("wrong-values-or-order", f"invocation {j} got {cinv['args']!r}, notification {j} carried {seq[j]['data']['params']!r:.150}")
-                    break
-            if bad is None and len(calls) < len(must) and not slow:
-                bad = ("missed-invocation", f"{len(calls)} callback invocations but {len(must)} matching progress notifications were delivered "
-                                            f"before completion")
+        j = 0
+        for d in seq:
+            if j < len(calls) and args_ok(d, calls[j]["args"]):
+                j += 1
+            elif d in must and not slow:
+                if j < len(calls):
+                    bad = ("wrong-values-or-order", f"invocation {j} got {calls[j]['args']!r}, next due notification carried {d['data']['params']!r:.150}")
+                else:
+                    bad = ("missed-invocation", f"{len(calls)} callback invocations but {len(must)} matching progress notifications were "
+                                                f"delivered before completion; first missed: {d['data']['params']!r:.120}")
+                break
+        if bad is None and j < len(calls):
+            bad = ("extra-invocation", f"callback invocation {j} with {calls[j]['args']!r} matches no matching-token progress notification "
+                                       f"delivered before completion (in order); {len(calls)} invocations for {len(seq)} notifications")
         if bad:
             V("progress", bad[0], bad[1])
         if any(j < len(calls) for j in scn["cb"]["raise_at"]):
